@@ -199,6 +199,9 @@ const (
 	ErrEndifWithoutMatchingIf Error = "$endif without matching $if"
 	// ErrUnknownModifier is the unknown modifier error.
 	ErrUnknownModifier Error = "unknown modifier"
+	// ErrIncludeLoop is the error for a file that includes itself (directly or through
+	// other files), or for $include directives nested too deeply.
+	ErrIncludeLoop Error = "$include loop"
 )
 
 // Error satisfies the error interface.
